@@ -1,4 +1,4 @@
-/* C13 — HTTP front door: anything that is not a valid WebSocket upgrade gets an error status or a close and leaves
+/* C13 - HTTP front door: anything that is not a valid WebSocket upgrade gets an error status or a close and leaves
  * nothing behind.  Enumerates a valid upgrade request truncated at / corrupted at every byte, request-line variants
  * and over-long lines, optionally each under every single split point (deviation budget 1). */
 #include <stdlib.h>
